@@ -332,8 +332,9 @@ assembler_case!(c01_reassembly_mid_message_join, "C01", None, [E | X, B | X, E |
 assembler_case!(c01_reassembly_unfragmented_then_two, "C01", None, [U, B, E], [U, U], [0, 0, 0], [32, 39], "[must] unfragmented message passed through, then a two-fragment message");
 // @verif tier=quick unwind=10 fs=300 unwindset=hashbrown:3,simd_bitmask_impl:17,find_suitable_capacity:4,dealloc_buffer_aligned:2
 assembler_case!(c01_reassembly_never_started, "C01", None, [M, E, U], [U, U], [0, 0, 0], [7], "[must] fragments without a start dropped, unfragmented message still delivered");
-// @verif tier=quick unwind=10 fs=300 unwindset=hashbrown:3,simd_bitmask_impl:17,find_suitable_capacity:4,dealloc_buffer_aligned:2
-assembler_case!(c01_reassembly_stray_end_after_message, "C01", None, [B, E, E], [U, U], [0, 0, 0], [64], "[must] a stray END after a completed message delivers nothing more");
+// (19 M variables on the correct code: thorough tier, 24 GB)
+// @verif tier=thorough mem=24 unwind=10 fs=300 unwindset=hashbrown:3,simd_bitmask_impl:17,find_suitable_capacity:4,dealloc_buffer_aligned:2
+assembler_case!(c01_heavy_reassembly_stray_end_after_message, "C01", None, [B, E, E], [U, U], [0, 0, 0], [64], "[must] a stray END after a completed message delivers nothing more");
 // @verif tier=thorough unwind=10 fs=300 unwindset=hashbrown:3,simd_bitmask_impl:17,find_suitable_capacity:4,dealloc_buffer_aligned:2
 assembler_case!(c01_heavy_reassembly_two_messages, "C01", None, [B, E, U], [U, U], [0, 0, 0], [64, 7], "[must] two messages in offer order");
 // @verif tier=thorough mem=24 unwind=10 fs=300 unwindset=hashbrown:3,simd_bitmask_impl:17,find_suitable_capacity:4,dealloc_buffer_aligned:2
@@ -345,7 +346,7 @@ assembler_case!(c01_heavy_reassembly_restart, "C01", None, [B, B, E], [U, U], [0
 assembler_case!(c01_heavy_reassembly_two_fragments_growth, "C01", Some(64), [B, E, U], [U, U], [0, 0], [64], "[must] growth path of the builder taken");
 
 // a stray END after a completed message must not be glued to what was delivered before (also run under C01)
-// @verif tier=quick unwind=10 fs=300 unwindset=hashbrown:3,simd_bitmask_impl:17,find_suitable_capacity:4,dealloc_buffer_aligned:2
+// @verif tier=thorough mem=24 unwind=10 fs=300 unwindset=hashbrown:3,simd_bitmask_impl:17,find_suitable_capacity:4,dealloc_buffer_aligned:2
 assembler_case!(c20_assembler_stray_end_after_message, "C20", None, [B, E, E], [U, U], [0, 0, 0], [64], "[must] a stray END after a completed message delivers nothing more");
 // Two sessions interleaved at fragment granularity (A = session 5, B = session 9; order 0 = A's next frame, 1 = B's).
 // @verif tier=quick unwind=10 fs=300 unwindset=hashbrown:3,simd_bitmask_impl:17,find_suitable_capacity:4,dealloc_buffer_aligned:2
